@@ -138,20 +138,25 @@ Proof.
 Qed.
 
 (* ------------------------------------------------------------------------------------------------ undo actions respect veq *)
+Lemma del_slot_veq : forall s t q o vac psp, veq s t ->
+  veq (fst (del_slot s q o vac psp)) (fst (del_slot t q o vac psp)) /\ snd (del_slot s q o vac psp) = snd (del_slot t q o vac psp).
+Proof.
+  intros s t q o vac psp H. unfold del_slot. destruct vac as [i|].
+  - destruct (nth_error q i) as [[x|]|]; cbn; (split; [repeat apply veq_upd; assumption | reflexivity]).
+  - cbn. split; [repeat apply veq_upd; assumption | reflexivity].
+Qed.
+
 Lemma undo_uact_veq : forall u s t, veq s t ->
   veq (fst (undo_uact u s)) (fst (undo_uact u t)) /\ snd (undo_uact u s) = snd (undo_uact u t).
 Proof.
-  intros u s t H. destruct u as [l c|o|o sp]; cbn.
+  intros u s t H. destruct u as [l c|o|o vac psp]; cbn.
   - split; [now apply veq_upd | reflexivity].
   - rewrite (g_queue_veq _ _ H), (g_savepos_veq _ _ o H).
     destruct (rev (g_queue t)); cbn; [split; auto|]. split; [now apply veq_upd | reflexivity].
   - rewrite (g_status_veq _ _ o H), (g_queue_veq _ _ H).
-    destruct (status_eqb (g_status t o) SMarked); [|split; auto].
+    destruct (status_eqb (g_status t o) SMarked); [|now apply del_slot_veq].
     destruct (rev (g_queue t)) as [|o' r]; [split; auto|].
-    destruct (opt_eqb Nat.eqb o' (Some o)); [|split; [now apply veq_upd | reflexivity]].
-    destruct sp as [i|].
-    + destruct (nth_error (rev r) i) as [[x|]|]; cbn; (split; [repeat apply veq_upd; assumption | reflexivity]).
-    + cbn. split; [repeat apply veq_upd; assumption | reflexivity].
+    destruct (opt_eqb Nat.eqb o' (Some o)); [now apply del_slot_veq | split; [now apply veq_upd | reflexivity]].
 Qed.
 
 Lemma undo_closure_veq : forall c s t, veq s t ->
